@@ -47,14 +47,15 @@ func (a *AzimuthalEquidistant) Forward(lonLat geom.XY) geom.XY {
 	λ0r := dtor(a.centerLonLat.X)
 	φ0r := dtor(a.centerLonLat.Y)
 
-	// Rounding can push the cosine of the angular distance slightly outside
-	// of [-1, 1] (e.g. at the center itself), where acos would give NaN.
+	// The angular distance c from the center is found from both its sine and
+	// its cosine. Taking the arc cosine of the cosine alone loses all
+	// precision for points at or near the center (where the cosine is flat),
+	// and gives NaN when rounding pushes the cosine just outside of [-1, 1].
+	sincsinθ := cos(φr) * sin(λr-λ0r)
+	sinccosθ := cos(φ0r)*sin(φr) - sin(φ0r)*cos(φr)*cos(λr-λ0r)
 	cosc := sin(φ0r)*sin(φr) + cos(φ0r)*cos(φr)*cos(λr-λ0r)
-	ρ := R * acos(math.Max(-1, math.Min(1, cosc)))
-	θ := atan2(
-		cos(φr)*sin(λr-λ0r),
-		cos(φ0r)*sin(φr)-sin(φ0r)*cos(φr)*cos(λr-λ0r),
-	)
+	ρ := R * atan2(math.Hypot(sincsinθ, sinccosθ), cosc)
+	θ := atan2(sincsinθ, sinccosθ)
 	return geom.XY{
 		X: ρ * sin(θ),
 		Y: ρ * cos(θ),
